@@ -78,6 +78,19 @@ Proof. exact (par_layer_eq_seq lower). Qed.
 Theorem C19_par_eq_seq : forall scheds s ls,
   layers_ok ls -> erase_font (snd (par_font scheds s ls)) = erase_font (snd (seq_font s ls)).
 Proof. exact (par_font_eq_seq lower). Qed.
+(** No history: a load is a function of the UFO alone.  Every [Font::load] starts from
+    [NameList::default()] (the model's [[]]), and the model has no other state that outlives a load;
+    moreover even an ARBITRARY leftover interner content [s] (and other schedules) could not change
+    what is loaded: loading font B after font A = loading font B.  (That the implementation keeps no
+    state per thread / process / pool either is tied by the cross-load history stream of the check
+    and by the inventory of [thread_local!] / [static] sites.) *)
+Theorem C19_load_independent_of_history : forall scheds scheds' s ls,
+  layers_ok ls ->
+  erase_font (snd (par_font scheds s ls)) = erase_font (snd (par_font scheds' [] ls)) /\
+  erase_font (snd (par_font scheds s ls)) = erase_font (snd (seq_font [] ls)).
+Proof.
+  intros scheds scheds' s ls H. rewrite !(par_font_spec lower) by assumption. rewrite (seq_font_spec lower). split; reflexivity.
+Qed.
 (** in the form of DESIGN.md: all tasks Ok -> both succeed with the same font *)
 Theorem C19_par_eq_seq_ok : forall scheds s ls,
   layers_ok ls -> font_ok ls = true ->
